@@ -258,6 +258,23 @@ theorem tx_delete_match_same (name : Nat → List Char) (t : Tx) (hb : (keys t.b
   refine ⟨?_, key⟩
   rw [key, deleteMatch_view hd, Tx.direct_view ho]
 
+/-- The hypothesis of the theorems above (keys of a store are distinct — an `OrderedDict` cannot
+hold a key twice) holds in every state the modelled commands can produce: it is preserved by the
+transaction's `set`, `delete`, `delete_match` and `get_match`, and holds of the directly updated store. -/
+theorem tx_commands_keep_keys_distinct (name : Nat → List Char) (t : Tx) (hb : (keys t.backend).Nodup)
+    (ho : (keys t.overlay).Nodup) (k : Key) (v : Val) (ttl : Option Nat) (pat : List Char) :
+    ((keys (t.set k v ttl).backend).Nodup ∧ (keys (t.set k v ttl).overlay).Nodup) ∧
+    ((keys (t.delete k).backend).Nodup ∧ (keys (t.delete k).overlay).Nodup) ∧
+    ((keys (t.deleteMatch name pat).backend).Nodup ∧ (keys (t.deleteMatch name pat).overlay).Nodup) ∧
+    ((keys (t.getMatch name pat).1.backend).Nodup ∧ (keys (t.getMatch name pat).1.overlay).Nodup) ∧
+    (keys t.direct.store).Nodup := by
+  refine ⟨⟨hb, nodup_rawSet (m := t.omem) ho k v ttl⟩, ⟨hb, ?_⟩,
+    ⟨hb, nodup_deleteMatch (m := t.omem) ho pat⟩,
+    ⟨nodup_getMatch (m := t.bmem) hb pat, nodup_getMatch (m := t.omem) ho pat⟩, Tx.nodup_direct hb⟩
+  show (keys (t.omem.rawDelete k).1.store).Nodup
+  rw [rawDelete_eq]
+  exact Mem.nodup_keys_erase ho k
+
 /-! ### Non-vacuity: the model computes, hypotheses are satisfiable -/
 
 /-- metacharacters are literal, `*` is a wildcard, the whole key must match -/
